@@ -183,7 +183,12 @@ func handle(h *NtfnsHandler) {
 
 		case <-h.sigSuspend:
 			simYield("handle.suspended")
-			<-h.sigResume
+			select {
+			case <-h.sigResume:
+			case <-h.quit:
+				logging.CPrint(logging.INFO, "NtfnsHandler stopped", logging.LogFormat{})
+				return
+			}
 
 		case block := <-h.queueBlock:
 			err := h.processConnectedBlock(block)
@@ -822,6 +827,11 @@ func worker(h *NtfnsHandler) {
 			switch task.taskType {
 			case WalletTaskImport:
 				fin, err := h.asyncImport(task.walletId)
+				if err == ErrTaskAbort {
+					// shutting down; the import resumes from its persisted
+					// status on the next start
+					continue
+				}
 				if err != nil {
 					logging.CPrint(logging.ERROR, "asyncImport error", logging.LogFormat{
 						"walletId": task.walletId,
@@ -869,7 +879,9 @@ func (h *NtfnsHandler) asyncImport(walletId string) (finish bool, err error) {
 		relatedHashes = append(relatedHashes, ma.ScriptAddress())
 	}
 
-	h.suspend(false, "[asyncImport] run", logging.LogFormat{"walletId": walletId})
+	if !h.suspend(false, "[asyncImport] run", logging.LogFormat{"walletId": walletId}) {
+		return false, ErrTaskAbort
+	}
 	defer func() {
 		h.resume(false, "[asyncImport] stop", logging.LogFormat{"walletId": walletId, "finish": finish})
 	}()
@@ -1020,7 +1032,9 @@ func (h *NtfnsHandler) asyncRemove(walletId string) error {
 		return nil
 	}
 
-	h.suspend(true, "[asyncRemove-1] deleting balance, address, staking/binding histories", logging.LogFormat{"walletId": walletId})
+	if !h.suspend(true, "[asyncRemove-1] deleting balance, address, staking/binding histories", logging.LogFormat{"walletId": walletId}) {
+		return ErrTaskAbort
+	}
 	err = mwdb.Update(h.walletMgr.db, func(wtx mwdb.DBTransaction) error {
 		err := h.walletMgr.utxoStore.RemoveUnspentByWalletId(wtx, walletId)
 		if err != nil {
@@ -1052,7 +1066,9 @@ func (h *NtfnsHandler) asyncRemove(walletId string) error {
 		case <-h.quit:
 			return ErrTaskAbort
 		default:
-			h.suspend(true, "[asyncRemove-2] deleting credits, keystore", logging.LogFormat{"walletId": walletId})
+			if !h.suspend(true, "[asyncRemove-2] deleting credits, keystore", logging.LogFormat{"walletId": walletId}) {
+				return ErrTaskAbort
+			}
 			finish := false
 			var removedTx []*wire.Hash
 			err := mwdb.Update(h.walletMgr.db, func(wtx mwdb.DBTransaction) (err error) {
@@ -1254,17 +1270,27 @@ func (h *NtfnsHandler) OnTransactionReceived(tx *wire.MsgTx) error {
 	return nil
 }
 
-func (h *NtfnsHandler) suspend(log bool, msg string, fields logging.LogFormat) {
+// suspend pauses the block handler for a background task step. It returns
+// false, without pausing anything, when the handler is shutting down.
+func (h *NtfnsHandler) suspend(log bool, msg string, fields logging.LogFormat) bool {
 	simYield("worker.suspend")
-	h.sigSuspend <- struct{}{}
+	select {
+	case h.sigSuspend <- struct{}{}:
+	case <-h.quit:
+		return false
+	}
 	if log {
 		logging.VPrint(logging.INFO, msg, fields)
 	}
+	return true
 }
 
 func (h *NtfnsHandler) resume(log bool, msg string, fields logging.LogFormat) {
 	simYield("worker.resume")
-	h.sigResume <- struct{}{}
+	select {
+	case h.sigResume <- struct{}{}:
+	case <-h.quit:
+	}
 	if log {
 		logging.VPrint(logging.INFO, msg, fields)
 	}
